@@ -37,6 +37,8 @@ def gen_table(rng, family, base):
             if u < 0.55:
                 k = rng.choice(list(K))
                 K[k] = max(0, K[k] + rng.choice((-2, -1, -1, 1, 1, 2)))
+                if rng.random() < 0.06:
+                    K[k] = rng.choice((13, 14, 16, 18, 24))        # far above any usual valence
             elif u < 0.8:
                 el = rng.choice(COMMON)
                 K[key_of(el, rng.choice((1, -1, 2, -2, 3)))] = rng.randint(0, 7)
@@ -66,8 +68,8 @@ def gen_table(rng, family, base):
         K = {}
         for _ in range(rng.randint(10, 40)):
             el = rng.choice(ELEMENTS) if rng.random() < 0.6 else rng.choice(COMMON)
-            K[key_of(el, rng.choice((0, 0, 0, 1, -1, 2, -2, 3)))] = rng.choice((0, 1, 2, 3, 4, 5, 6, 7, 8, 9, 10, 11, 12))
-        K["?"] = rng.randint(0, 12)
+            K[key_of(el, rng.choice((0, 0, 0, 1, -1, 2, -2, 3)))] = rng.choice((0, 1, 2, 3, 4, 5, 6, 7, 8, 9, 10, 11, 12, 13, 14, 16, 20))
+        K["?"] = rng.choice((0, 1, 2, 3, 4, 6, 8, 9, 12, 13, 15, 17))
         return _shuffle_q(rng, K)
     if family == "charges":
         K = {}
